@@ -665,7 +665,8 @@ class Module:
             self.tree = ast.parse(text, filename=path)
         except SyntaxError as e:
             raise AnalysisError('cannot parse %s: %s' % (rel, e))
-        self.renames = align_locals(self.tree, name)
+        from . import canon
+        self.renames = canon.canonicalise(self.tree, name)
         set_parents(self.tree)
         self.funcs = {}      # qual -> FuncInfo
         self.classes = {}    # name -> ClassInfo
